@@ -17,6 +17,7 @@ from optiland.rays import PolarizedRays, PolarizationState, RayGenerator
 from optiland.distribution import create_distribution
 from optiland.geometries import Plane, StandardGeometry
 from optiland.materials import IdealMaterial
+from optiland.coatings import FresnelCoating
 from optiland.visualization import OpticViewer, OpticViewer3D, LensInfoViewer
 from optiland.pickup import PickupManager
 from optiland.solves import SolveManager
@@ -226,6 +227,11 @@ class Optic:
 
         surface_post = self.surface_group.surfaces[surface_number+1]
         surface_post.material_pre = new_material
+
+        # Fresnel coatings hold the media on both sides of their surface
+        for surf in (surface, surface_post):
+            if isinstance(surf.coating, FresnelCoating):
+                surf.set_fresnel_coating()
 
     def set_asphere_coeff(self, value, surface_number, aspher_coeff_idx):
         """
